@@ -2,7 +2,9 @@
 // environment and parses one of the fixed grammars with the recording control / actions.
 #include <tao/pegtl.hpp>
 
+#include <cstring>
 #include <filesystem>
+#include <string_view>
 #include <istream>
 
 #include "io.hpp"
@@ -44,6 +46,8 @@ namespace sim
             case 5: run_with< 5 >( in, out ); break;
             case 6: run_with< 6 >( in, out ); break;
             case 8: run_with< 8 >( in, out ); break;
+            case 9: run_with< 9 >( in, out ); break;
+            case 10: run_with< 10 >( in, out ); break;
             default: run_with< 7 >( in, out ); break;
          }
       }
@@ -87,6 +91,105 @@ namespace sim
          log_event( Ev::TOP_END, 0, F_EXC | s.flags, 0, 0, s, 0, xi );
       }
    }  // namespace
+
+   void tracer_check( const std::string& printed, std::size_t stack_size, std::size_t count, bool complete, const Snap& at )
+   {
+      Suspend sp;
+      // what the tracer printed, one token per hook it saw
+      std::string got;
+      std::size_t i = 0;
+      while( i < printed.size() ) {
+         std::size_t e = printed.find( '\n', i );
+         if( e == std::string::npos ) {
+            e = printed.size();
+         }
+         std::size_t b = i;
+         if( printed[ b ] == '#' ) {
+            got += 'S';
+         }
+         else {
+            while( b < e && printed[ b ] == ' ' ) {
+               ++b;
+            }
+            const std::string_view w( printed.data() + b, e - b );
+            auto starts = [ & ]( const char* k ) { return w.compare( 0, std::strlen( k ), k ) == 0; };
+            if( starts( "success" ) ) {
+               got += 's';
+            }
+            else if( starts( "failure" ) ) {
+               got += 'f';
+            }
+            else if( starts( "unwind" ) ) {
+               got += 'u';
+            }
+            else if( starts( "apply0" ) ) {
+               got += '0';
+            }
+            else if( starts( "apply" ) ) {
+               got += 'a';
+            }
+            else if( starts( "raise_nested" ) ) {
+               got += 'n';
+            }
+            else if( starts( "raise" ) ) {
+               got += 'r';
+            }
+         }
+         i = e + 1;
+      }
+      // what it must have seen according to the recorded history
+      std::string want;
+      std::size_t starts_seen = 0;
+      for( const Event& e : W.h ) {
+         const bool enabled = e.rule < g_rules.size() && g_rules[ e.rule ].enable;
+         switch( e.kind ) {
+            case Ev::START: want += 'S'; ++starts_seen; break;
+            case Ev::SUCCESS: want += 's'; break;
+            case Ev::FAILURE: want += 'f'; break;
+            case Ev::UNWIND: want += 'u'; break;
+            case Ev::APPLY: want += 'a'; break;
+            case Ev::APPLY0: want += '0'; break;
+            case Ev::RAISE:
+               if( complete || enabled ) {
+                  want += 'r';
+               }
+               break;
+            case Ev::RAISE_NESTED:
+               if( complete || enabled ) {
+                  want += 'n';
+               }
+               break;
+            case Ev::ENTER:
+               if( complete && !enabled ) {
+                  want += 'S';
+                  ++starts_seen;
+               }
+               break;
+            case Ev::EXIT:
+               if( complete && !enabled ) {
+                  want += ( e.flags & F_RESULT ) ? 's' : 'f';
+               }
+               break;
+            case Ev::EXC:
+               if( complete && !enabled ) {
+                  want += 'u';
+               }
+               break;
+            default:
+               break;
+         }
+      }
+      if( got != want ) {
+         std::size_t k = 0;
+         while( k < got.size() && k < want.size() && got[ k ] == want[ k ] ) {
+            ++k;
+         }
+         soft_violation( 9, k, at );
+      }
+      else if( stack_size != 0 || count != starts_seen ) {
+         soft_violation( 10, ( static_cast< std::uint64_t >( stack_size < 4095 ? stack_size : 4095 ) << 20 ) | ( count & 0xfffffu ), at );
+      }
+   }
 
    RunResult run_io( int io_class, const Case& c )
    {
